@@ -1,16 +1,7 @@
-// what `Error::with_location` is assumed to preserve (it only rewrites the location field)
+// what `Error::with_location` is assumed to preserve (it only rewrites the location field); only the
+// kinds some contract distinguishes are listed, to keep the solver's work small
 spec fn error_kind_same(a: Error, b: Error) -> bool {
     &&& (a is IOError <==> b is IOError)
     &&& (a is Budget <==> b is Budget)
-    &&& (a is Eof <==> b is Eof)
-    &&& (a is UnknownAnchor <==> b is UnknownAnchor)
-    &&& (a is Unexpected <==> b is Unexpected)
-    &&& (a is DuplicateMappingKey <==> b is DuplicateMappingKey)
-    &&& (a is MergeValueNotMapOrSeqOfMaps <==> b is MergeValueNotMapOrSeqOfMaps)
     &&& (a is MultipleDocuments <==> b is MultipleDocuments)
-    &&& (a is RecursiveReferencesRequireWeakTypes <==> b is RecursiveReferencesRequireWeakTypes)
-    &&& (a is AliasReplayLimitExceeded <==> b is AliasReplayLimitExceeded)
-    &&& (a is AliasExpansionLimitExceeded <==> b is AliasExpansionLimitExceeded)
-    &&& (a is AliasReplayStackDepthExceeded <==> b is AliasReplayStackDepthExceeded)
-    &&& (a is AliasReplayCounterOverflow <==> b is AliasReplayCounterOverflow)
 }
